@@ -1,4 +1,4 @@
-FIX_COMMITS = ['056fe00 (C14)']
+FIX_COMMITS = ['056fe00 (C14)', '194b898 (C18)']
 CHECKS = {
  'C14': dict(category='proof',
    text='For all (n_nodes, n_cores, n_inputs, trials, job_idx) - no bound - the body of run_parallel is executed symbolically and 10 '
@@ -9,5 +9,22 @@ CHECKS = {
         'str(k).zfill(w) injective on k >= 0; abspath(join(d,f)) injective in f. Trusted: z3, the pyvc executor (cross-checked natively on the grid).',
    technique='VCs from the AST of run_parallel (symbolic execution, spawn effect), z3 nonlinear integer arithmetic, lemma splitting'),
 }
+CHECKS['C18'] = dict(category='proof',
+   text='error_probability is executed symbolically over abstract arrays with a symbolic qubit index and symbolic n; z3 discharges that the '
+        'i-th factor is exactly the channel probability of the Pauli on qubit i (both the product and the log form), that the four factors of a '
+        'qubit sum to p_I+p_X+p_Y+p_Z, and that get_next_error accepts with q = exp(min(0, logP(new)-logP(prev))) = min(1, P(new)/P(prev)). '
+        'Bounded: all 4^n errors for n <= 5 through the real function (sum = 1, product formula).',
+   note='Assumed: floats as reals; numpy elementwise/reduction semantics; binary error vectors; distributivity of sum over product (textbook); '
+        'exp/log axioms for the Metropolis lemma; np.random.choice(p=...) honours p.',
+   technique='pointwise VCs from the AST (abstract array domain), z3 linear real arithmetic + UF; 4^n enumeration as bounded cross-check')
+CHECKS['C07'] = dict(category='proof',
+   text='fast_choice, probability_distribution (plain and deformed, loop by the derived rule R-pointwise), generate + pauli_to_bsf, get_weights and '
+        'update_probabilities are executed symbolically with a symbolic qubit index and symbolic n; 29 real-arithmetic obligations: inverse-CDF '
+        'intervals of exact length p_k, per-qubit table = (1-p, p r_D(X), p r_D(Y), p r_D(Z)), non-negative and normalised, BSF bits of the drawn Pauli, '
+        'p=0/p=1 extremes, LLR weights and their sign, conditional-probability update, no raise. Counter-models are replayed on the real functions; '
+        'run-time contracts over every code class x deformation x axis as bounded cross-check.',
+   note='Assumed: floats as reals (float cumulative-sum shortfall is outside the claim); rng.random() uniform on [0,1) and independent; numpy elementwise semantics; '
+        'get_deformation returns a permutation (proved in C08); log strictly increasing. BP-OSD channel priors are checked under C05.',
+   technique='pointwise VCs from the AST (abstract arrays, derived loop rule), z3 real arithmetic; counter-model replay; run-time contracts')
 _PENDING = 'check under construction in this session (contract-based check planned in DESIGN.md section 3); not claimed until its command exists'
 NOT_APPLICABLE = {p: _PENDING for p in ['C%02d' % i for i in range(1, 21)]}
